@@ -51,7 +51,7 @@ def requirements(tier):
          "cagrad_distance_checked": 150, "cagrad_c0_checked": 30, "cagrad_stationary_checked": 5, "graddrop_candidate_pair_checked": 1500,
          "graddrop_draws_vs_purity_checked": 1000, "graddrop_pure_column_checked": 300, "pcgrad_schedules_forced": 500, "pcgrad_distinct_outputs_m3": 2,
          "pcgrad_free_seed_in_candidate_set": 200, "pcgrad_no_conflict_is_sum": 50, "pcgrad_replayed_draws_m_gt_4": 50, "randperm_recorder_hits": 1,
-         "rand_recorder_hits": 1, "w_leak_0_and_1": 100, "w_float32": 300, "w_graddrop_non_default_f": 300, "w_cagrad_ill_conditioned_judged": 10}
+         "rand_recorder_hits": 1, "w_leak_0_and_1": 100, "w_float32": 300, "w_graddrop_non_default_f": 300, "w_graddrop_other_magnitudes": 200, "w_cagrad_ill_conditioned_judged": 10}
     if tier == "thorough":
         r["pcgrad_m4_all_1296"] = 20
         r["graddrop_frequency_checked"] = 100
@@ -251,6 +251,10 @@ def gen_graddrop(rng, i):
     else:
         leak = [float(x) for x in np.round(rng.uniform(0, 1, size=m), 3)]
     f = ["identity", "identity", "square", "sqrt", "steep"][int(rng.integers(5))]
+    if rng.random() < 0.25:
+        # the purity is a ratio: the definition holds at every magnitude (an absolute floor on its denominator is a defect)
+        J = J * 10.0 ** int(rng.integers(-12, 13) if dname == "float32" else rng.integers(-100, 101))
+        klass += "+magnitude"
     return {"J": J.tolist(), "class": klass, "dtype": dname, "agg": {"name": "GradDrop", "leak": leak, "f": f}, "seed": int(rng.integers(1 << 20))}
 
 
@@ -306,6 +310,8 @@ def check_graddrop(case, ctx):
         ctx.count("w_graddrop_non_default_f")
     if dname == "float32":
         ctx.count("w_float32")
+    if case.get("class", "").endswith("+magnitude"):
+        ctx.count("w_graddrop_other_magnitudes")
     mixed_col = bool((((J > 0).any(axis=0)) & ((J < 0).any(axis=0))).any())
     ctx.evaluated(fingerprint(case), nontrivial=mixed_col)
     ctx.sample({"agg": a, "J": np.round(J, 3).tolist(), "dtype": dname})
